@@ -37,9 +37,9 @@ META = {
             'singular (low rank, Neumann Laplacians), zero rows+columns embedded in a nonsingular core (with and without '
             'explicitly stored zeros), zero column only / zero row only, 1x1, complex Hermitian PD / nonsymmetric / '
             'singular, matrices without stored entries, matrices of stored zeros, coarsest matrices of real SA / RS '
-            'hierarchies; CSR / CSC / BSR / COO storage.  Specs: every name of the dispatch chain, (name, kwargs) tuples, '
+            'hierarchies; CSR / CSC / BSR (1x1 and 2x2 blocks) / COO storage (CSR / BSR only for relaxation and Krylov names).  Specs: every name of the dispatch chain, (name, kwargs) tuples, '
             'callables with and without kwargs, None, unknown names.  Histories: 1..4 calls on one object, shapes (n,) and '
-            '(n,1) mixed, new / repeated / zero right-hand sides, sometimes a second matrix (stale-cache behaviour of the '
+            '(n,1) mixed, ndarray or (nested) list, new / repeated / zero right-hand sides, sometimes a second matrix (stale-cache behaviour of the '
             'model).  non-trivial = the matrix has a stored entry, n >= 2 and the history has >= 2 calls; distinct = distinct '
             '(matrix, spec, history).',
     'search_only': [
@@ -470,8 +470,11 @@ def gen_specs(rng, mat, quick=True):
     ]
     kry = [{'arg': nm} for nm in KRYLOV] + [{'arg': 'cg', 'opts': {'maxiter': 30}}, {'arg': 'gmres', 'opts': {'tol': 1e-10}}]
     k = 3 if quick else 5
-    for pool in (extra, relax, kry):
-        idx = rng.choice(len(pool), size=min(k, len(pool)), replace=False)
+    # relaxation / Krylov clauses apply to Hermitian positive definite matrices: spend the budget there
+    M = mat.M
+    is_hpd = bool(mat.n > 0 and np.array_equal(M, M.conj().T) and np.linalg.eigvalsh(M).min() > 1e-9)
+    for pool, kk in ((extra, k), (relax, k + 2 if is_hpd else 1), (kry, k if is_hpd else 1)):
+        idx = rng.choice(len(pool), size=min(kk, len(pool)), replace=False)
         specs += [pool[int(i)] for i in idx]
     return specs
 
@@ -1137,7 +1140,7 @@ def fixed_items():
 
 def run(ctx):
     part_dispatch(ctx)
-    items = fixed_items() + build_items(ctx, ctx.scale(40, 1200), ctx.quick)
+    items = fixed_items() + build_items(ctx, ctx.scale(80, 1700), ctx.quick)
     step = 400
     for i in range(0, len(items), step):
         judge_batch(ctx, items[i:i + step], seed=ctx.seed)
